@@ -1,8 +1,23 @@
-import EdpVerif.Drv.Common
+import EdpVerif.Drv.Etf
 namespace Edp.Drv
+open Edp
 
-/-- driver requests of property C03 (stub: nothing handled yet) -/
+/-- C03 oracle: `c03 <bytes> <oracle> <impl result with `~` for spaces>`.
+The Spec reads the bytes; when it accepts them as exactly one value, the library must have returned a term denoting
+that value (maps as unordered sets of entries with distinct keys); when the Spec rejects, nothing is demanded. -/
 def handleC03 : List String → Option String
+  | ["c03", h, o, res] => some <| run do
+    let b ← getHex h
+    let orc := parseOracle o
+    match Spec.parseTop orc.env b with
+    | some (v, []) =>
+      if !Spec.keysDistinct v then pure "ok" else  -- not a valid encoding: duplicate keys
+      match res.splitOn "~" with
+      | ["ok", t] =>
+        let t ← getTerm t
+        if Value.same v t.den then pure "ok" else pure ("FAIL spec=" ++ v.text ++ " decoded=" ++ t.den.text)
+      | _ => pure ("FAIL spec=" ++ v.text ++ " library=" ++ res)
+    | _ => pure "ok"
   | _ => none
 
 end Edp.Drv
